@@ -244,59 +244,77 @@ Proof.
     rewrite len_app. change (len [32]) with 1. f_equal. f_equal; lia.
 Qed.
 
-(* ---- one bullet marker and its blanks in front of the rest of the line ---- *)
+(* the list_item_open token: ordered items record the digits written *)
+Definition li_open_g (isOrd : bool) (body : str) (mc lv : Z) : token :=
+  (if isOrd then (fun x => set_info x body) else (fun x => x))
+    (map_tok 0 1 (set_markup (set_level (set_block (new_token s_list_item_open s_li 1) true) lv) [mc])).
+Lemma li_open_g_bullet m lv : li_open_g false [] m lv = li_open_at m lv.
+Proof. reflexivity. Qed.
+
+(* ---- one list marker (body ++ [mc]: a bullet, or digits and a delimiter) and its blanks in front of the rest of the line ---- *)
 Section ItemStep.
 Context (cfg : bcfg) (rf cf : str -> str).
-Context (pre1 pre2 : str) (m : Z) (k : nat) (c1 : Z) (r1 : str) (bs li lv : Z).
-Context (Hm : m = 42 \/ m = 45 \/ m = 43) (Hk : (1 <= k <= 4)%nat).
+Context (pre1 pre2 : str) (isOrd : bool) (body : str) (mc : Z) (k : nat) (c1 : Z) (r1 : str) (bs li lv : Z).
+Context (Hk : (1 <= k <= 4)%nat).
 Context (Hc9 : (c1 =? 9) = false) (Hc32 : (c1 =? 32) = false).
 Notation L' := (c1 :: r1).
-Notation L := (m :: sp k ++ c1 :: r1).
+Notation L := (body ++ mc :: sp k ++ c1 :: r1).
 Notation off := (len pre1 + len pre2).
+Notation pam := (len pre1 + len pre2 + len body + 1).
 
-Lemma i_src st : b_src st = pre1 ++ pre2 ++ L ++ [10] -> b_src st = (pre1 ++ pre2) ++ m :: sp k ++ c1 :: r1 ++ [10].
-Proof. intros ->. rewrite <- !app_assoc. cbn [app]. rewrite <- app_assoc. reflexivity. Qed.
+Lemma i_src st : b_src st = pre1 ++ pre2 ++ L ++ [10] -> b_src st = ((pre1 ++ pre2) ++ body) ++ mc :: sp k ++ c1 :: r1 ++ [10].
+Proof. intros ->. rewrite <- !app_assoc. cbn [app]. rewrite <- ?app_assoc. reflexivity. Qed.
 
-Lemma len_Li : len L = len r1 + 2 + Z.of_nat k.
-Proof. rewrite len_cons, len_app, len_sp, len_cons. lia. Qed.
+Lemma len_Li : len L = len body + len r1 + 2 + Z.of_nat k.
+Proof. rewrite len_app, len_cons, len_app, len_sp, len_cons. lia. Qed.
 
-Lemma i_second st : b_src st = pre1 ++ pre2 ++ L ++ [10] -> py_idx (b_src st) (off + 1) = Ok 32.
+Lemma i_body st : b_src st = pre1 ++ pre2 ++ L ++ [10] -> slice (b_src st) off (pam - 1) = body.
 Proof.
-  intros H. rewrite (i_src st H), <- len_app. destruct k as [|k']; [lia|]. rewrite sp_S. cbn [app]. apply py_idx_app2.
+  intros ->. replace (pre1 ++ pre2 ++ (body ++ mc :: sp k ++ c1 :: r1) ++ [10]) with ((pre1 ++ pre2) ++ body ++ (mc :: sp k ++ c1 :: r1 ++ [10])).
+  2:{ rewrite <- !app_assoc. cbn [app]. rewrite <- ?app_assoc. reflexivity. }
+  replace (len pre1 + len pre2) with (len (pre1 ++ pre2)) by apply len_app.
+  replace (len (pre1 ++ pre2) + len body + 1 - 1) with (len (pre1 ++ pre2) + len body) by lia.
+  apply slice_app_mid.
 Qed.
 
 Context (rec : rec_t) (X : list token).
-Context (HREC : rec_adds rec pre1 (pre2 ++ m :: sp k) L' bs (len pre2) (lv + 2) X).
+Context (HREC : rec_adds rec pre1 (pre2 ++ body ++ mc :: sp k) L' bs (len pre2) (lv + 2) X).
 
-Lemma list_items_off f term st2 start : off_tabs st2 pre1 pre2 L bs li -> b_level st2 = lv + 1 -> b_line st2 = 0 ->
-  exists st6, list_items cfg (S f) rec term st2 false m 0 0 1 (off + 1) start true false = Ok (1, true, st6)
+Lemma list_items_off f term st2 start : (isOrd = true -> start = off) ->
+  off_tabs st2 pre1 pre2 L bs li -> b_level st2 = lv + 1 -> b_line st2 = 0 ->
+  exists st6, list_items cfg (S f) rec term st2 isOrd mc 0 0 1 pam start true false = Ok (1, true, st6)
     /\ off_tabs st6 pre1 pre2 L bs li /\ b_level st6 = lv + 1
-    /\ b_tokens st6 = b_tokens st2 ++ li_open_at m (lv + 1) :: X ++ [li_close_at m (lv + 1)]
+    /\ b_tokens st6 = b_tokens st2 ++ li_open_g isOrd body mc (lv + 1) :: X ++ [li_close_at mc (lv + 1)]
     /\ b_env st6 = b_env st2 /\ b_line st6 = 1.
 Proof.
-  intros (Hsrc & HbM & HeM & HtS & HsC & HbS & HbI & HlM & HlI) Hlv L0.
+  intros HST (Hsrc & HbM & HeM & HtS & HsC & HbS & HbI & HlM & HlI) Hlv L0.
   cbn [list_items]. change (negb (0 <? 1)) with false. cbv iota.
   unfold line_start.
   rewrite HeM, HsC, HbM, HtS, HbS, !tb2. cbn [bind].
-  replace (len pre2 + (off + 1) - off) with (len pre2 + 1) by lia.
-  pose proof len_Li as LL. pose proof (len_nonneg r1). pose proof (len_nonneg pre1). pose proof (len_nonneg pre2).
-  assert (LB : list_blanks (S (length (b_src st2))) (b_src st2) (off + 1) (off + len L) (len pre2 + 1) bs = Ok (off + 1 + Z.of_nat k, len pre2 + 1 + Z.of_nat k)).
+  replace (len pre2 + pam - off) with (len pre2 + len body + 1) by lia.
+  pose proof len_Li as LL. pose proof (len_nonneg r1). pose proof (len_nonneg pre1). pose proof (len_nonneg pre2). pose proof (len_nonneg body).
+  assert (LB : list_blanks (S (length (b_src st2))) (b_src st2) pam (off + len L) (len pre2 + len body + 1) bs
+               = Ok (pam + Z.of_nat k, len pre2 + len body + 1 + Z.of_nat k)).
   { rewrite (i_src st2 Hsrc).
-    replace ((pre1 ++ pre2) ++ m :: sp k ++ c1 :: r1 ++ [10]) with (((pre1 ++ pre2) ++ [m]) ++ sp k ++ c1 :: r1 ++ [10]) by (rewrite <- app_assoc; reflexivity).
-    replace (off + 1) with (len ((pre1 ++ pre2) ++ [m])) by (rewrite !len_app; reflexivity).
+    replace (((pre1 ++ pre2) ++ body) ++ mc :: sp k ++ c1 :: r1 ++ [10]) with ((((pre1 ++ pre2) ++ body) ++ [mc]) ++ sp k ++ c1 :: r1 ++ [10]) by (rewrite <- (app_assoc _ [mc]); reflexivity).
+    replace pam with (len (((pre1 ++ pre2) ++ body) ++ [mc])) by (rewrite !len_app; reflexivity).
     apply (list_blanks_spaces c1 Hc9 Hc32).
     - rewrite !app_length. cbn [length]. rewrite !app_length. unfold sp. rewrite repeat_length. lia.
-    - rewrite !len_app. change (len [m]) with 1. lia. }
+    - rewrite LL. rewrite !len_app. change (len [mc]) with 1. lia. }
   rewrite LB. cbn [bind].
-  assert (EM : (off + len L <=? off + 1 + Z.of_nat k) = false) by lia. rewrite !EM.
-  replace (len pre2 + 1 + Z.of_nat k - (len pre2 + 1)) with (Z.of_nat k) by lia.
+  assert (EM : (off + len L <=? pam + Z.of_nat k) = false) by lia. rewrite !EM.
+  replace (len pre2 + len body + 1 + Z.of_nat k - (len pre2 + len body + 1)) with (Z.of_nat k) by lia.
   assert (K4 : (4 <? Z.of_nat k) = false) by lia. rewrite K4. cbv iota.
-  cbn [bpush b_tShift b_sCount b_bMarks set]. rewrite HtS, HsC, HbM, !tb2. cbn [bind]. rewrite !tb_set2. cbn [bind].
+  cbn [bpush b_tShift b_sCount b_bMarks b_src set]. rewrite HtS, HsC, HbM, !tb2. cbn [bind]. rewrite !tb_set2. cbn [bind].
+  assert (INFO : (if isOrd then fun x : token => set_info x (slice (b_src st2) start (pam - 1)) else fun x : token => x)
+                 = (if isOrd then fun x : token => set_info x body else fun x : token => x)).
+  { destruct isOrd; [|reflexivity]. rewrite (HST eq_refl), (i_body st2 Hsrc). reflexivity. }
+  rewrite INFO.
   match goal with |- context [rec ?sN 0 1] => set (stN := sN) end.
-  assert (ON : off_line stN pre1 (pre2 ++ m :: sp k) L' bs (len pre2) (lv + 2)).
+  assert (ON : off_line stN pre1 (pre2 ++ body ++ mc :: sp k) L' bs (len pre2) (lv + 2)).
   { unfold off_line, stN, bpush. cbn. rewrite ?Hlv, ?HeM, ?HbM, ?HbS, ?HbI, ?HlM, ?HlI, ?Hsrc. cbn.
     change (1 <? 0) with false. change (0 <? 1) with true. cbv iota.
-    rewrite !len_app, !len_cons, len_sp in *. rewrite ?len_app, ?len_cons, ?len_sp.
+    rewrite !len_app, !len_cons, !len_app, len_sp, len_cons in *. rewrite ?len_app, ?len_cons, ?len_sp.
     repeat split; try reflexivity; try (f_equal; lia); try (f_equal; [lia | f_equal; lia]); try (f_equal; f_equal; lia); try lia.
     rewrite <- !app_assoc. cbn [app]. rewrite <- ?app_assoc. reflexivity. }
   assert (LN : b_line stN = 0) by exact L0.
@@ -310,19 +328,43 @@ Proof.
   eexists. split; [reflexivity|].
   split; [|split; [|split; [|split]]].
   - unfold off_tabs. cbn. rewrite ?Hsrc3, ?HbM3, ?HeM3, ?HbS3, ?HlI3, ?HlM3, ?HlI.
-    rewrite !len_app, !len_cons, len_sp in *. rewrite ?len_app, ?len_cons, ?len_sp.
+    rewrite !len_app, !len_cons, !len_app, len_sp, len_cons in *. rewrite ?len_app, ?len_cons, ?len_sp.
     repeat split; try reflexivity; try (f_equal; lia); try (f_equal; [lia | f_equal; lia]); try (f_equal; f_equal; lia); try lia.
     rewrite <- !app_assoc. cbn [app]. rewrite <- ?app_assoc. reflexivity.
   - cbn. rewrite Hlv3. change (-1 <? 0) with true. change (0 <? -1) with false. cbv iota. lia.
   - cbn. rewrite T3. unfold stN. cbn. rewrite Hlv3, Hlv.
     change (1 <? 0) with false. change (0 <? 1) with true. change (-1 <? 0) with true. change (0 <? -1) with false. cbv iota.
     unfold set_map_at. rewrite <- !app_assoc. cbn [app]. rewrite update_nth_tok_app.
-    unfold li_open_at, li_close_at. replace (lv + 2 - 1) with (lv + 1) by lia. reflexivity.
+    unfold li_open_g, li_close_at. replace (lv + 2 - 1) with (lv + 1) by lia. destruct isOrd; reflexivity.
   - cbn. rewrite E3. reflexivity.
   - cbn. exact L3.
 Qed.
 
-(* markTightParagraphs on the finished list: given by the caller for the inner tokens at hand *)
+End ItemStep.
+
+(* ---- the list rule on a bullet marker ---- *)
+Section BulletStep.
+Context (cfg : bcfg) (rf cf : str -> str).
+Context (pre1 pre2 : str) (m : Z) (k : nat) (c1 : Z) (r1 : str) (bs li lv : Z).
+Context (Hm : m = 42 \/ m = 45 \/ m = 43) (Hk : (1 <= k <= 4)%nat).
+Context (Hc9 : (c1 =? 9) = false) (Hc32 : (c1 =? 32) = false).
+Notation L' := (c1 :: r1).
+Notation L := (m :: sp k ++ c1 :: r1).
+Notation off := (len pre1 + len pre2).
+
+Lemma b_src_eq st : b_src st = pre1 ++ pre2 ++ L ++ [10] -> b_src st = (pre1 ++ pre2) ++ m :: sp k ++ c1 :: r1 ++ [10].
+Proof. intros ->. rewrite <- !app_assoc. cbn [app]. rewrite <- ?app_assoc. reflexivity. Qed.
+
+Lemma b_len : len L = len r1 + 2 + Z.of_nat k.
+Proof. rewrite len_cons, len_app, len_sp, len_cons. lia. Qed.
+
+Lemma b_second st : b_src st = pre1 ++ pre2 ++ L ++ [10] -> py_idx (b_src st) (off + 1) = Ok 32.
+Proof.
+  intros H. rewrite (b_src_eq st H), <- len_app. destruct k as [|k']; [lia|]. rewrite sp_S. cbn [app]. apply py_idx_app2.
+Qed.
+
+Context (rec : rec_t) (X : list token).
+Context (HREC : rec_adds rec pre1 (pre2 ++ m :: sp k) L' bs (len pre2) (lv + 2) X).
 Context (X' : list token).
 Context (HMT : forall A,
   mark_tight (S (length (A ++ ul_open_at m lv :: li_open_at m (lv + 1) :: X ++ [li_close_at m (lv + 1); ul_close_at m lv])))
@@ -334,16 +376,16 @@ Lemma i_skip_ordered st : off_line st pre1 pre2 L bs li lv -> skip_ordered st 0 
 Proof.
   intros H. unfold skip_ordered. rewrite (QuoteLine.ls0 _ _ _ _ _ _ st H), (QuoteLine.em0 _ _ _ _ _ _ st H). cbn [bind].
   match goal with |- (if ?c then _ else _) = _ => destruct c end; [reflexivity|].
-  destruct H as (Hsrc & _). rewrite (i_src st Hsrc), <- len_app, py_idx_app. cbn [bind].
+  destruct H as (Hsrc & _). rewrite (b_src_eq st Hsrc), <- len_app, py_idx_app. cbn [bind].
   assert (E : negb (is_digit m) = true) by (unfold is_digit; lia). rewrite E. reflexivity.
 Qed.
 
 Lemma i_skip_bullet st : off_line st pre1 pre2 L bs li lv -> skip_bullet st 0 = Ok (off + 1).
 Proof.
   intros H. unfold skip_bullet. rewrite (QuoteLine.ls0 _ _ _ _ _ _ st H), (QuoteLine.em0 _ _ _ _ _ _ st H). cbn [bind].
-  destruct H as (Hsrc & _). pose proof (i_second st Hsrc) as SEC. rewrite (i_src st Hsrc) in *. rewrite <- len_app, char_at_app.
+  destruct H as (Hsrc & _). pose proof (b_second st Hsrc) as SEC. rewrite (b_src_eq st Hsrc) in *. rewrite <- len_app, char_at_app.
   assert (E0 : negb ((m =? 42) || (m =? 45) || (m =? 43)) = false) by lia. rewrite E0. cbv iota.
-  pose proof len_Li. pose proof (len_nonneg r1).
+  pose proof b_len. pose proof (len_nonneg r1).
   assert (E : (len (pre1 ++ pre2) + 1 <? len (pre1 ++ pre2) + len L) = true) by lia. rewrite E.
   rewrite len_app. rewrite SEC. cbn [bind]. reflexivity.
 Qed.
@@ -364,14 +406,132 @@ Proof.
   assert (E0 : (0 <=? off + 1) = true) by lia. rewrite E0. cbv iota. cbn [bind].
   rewrite (QuoteLine.em0 _ _ _ _ _ _ st H). cbn [bind andb]. cbv iota.
   replace (off + 1 - 1) with off by lia.
-  assert (PM : py_idx (b_src st) off = Ok m) by (rewrite (i_src st Hsrc), <- len_app; apply py_idx_app).
+  assert (PM : py_idx (b_src st) off = Ok m) by (rewrite (b_src_eq st Hsrc), <- len_app; apply py_idx_app).
   rewrite PM. cbn [bind]. cbv iota.
   change (Z.to_nat (1 - 0)) with 1%nat.
   match goal with |- context [list_items cfg 2 rec term ?s2 false m 0 0 1 (off + 1) off true false] => set (st2 := s2) end.
+  assert (TL : off_tabs st2 pre1 pre2 ([] ++ m :: sp k ++ c1 :: r1) bs li) by (unfold off_tabs, st2, st_parent, bpush; cbn; repeat split; assumption).
+  assert (LV : b_level st2 = lv + 1) by (unfold st2, st_parent, bpush; cbn; rewrite Hlv; change (1 <? 0) with false; change (0 <? 1) with true; reflexivity).
+  assert (L2 : b_line st2 = 0) by exact L0.
+  replace (off + 1) with (len pre1 + len pre2 + len (@nil Z) + 1) by (change (len (@nil Z)) with 0; lia).
+  destruct (list_items_off cfg pre1 pre2 false [] m k c1 r1 bs li lv Hk Hc9 Hc32 rec X HREC 1 term st2 off (fun E => ltac:(discriminate E)) TL LV L2)
+    as (st6 & LI & TL6 & LV6 & T6 & E6 & L6).
+  rewrite LI. cbn [bind]. cbv iota.
+  destruct TL6 as (Hsrc6 & HbM6 & HeM6 & HtS6 & HsC6 & HbS6 & HbI6 & HlM6 & HlI6).
+  eexists. split; [reflexivity|].
+  split; [|split; [|split]].
+  - unfold off_line. cbn. rewrite LV6. change (-1 <? 0) with true. change (0 <? -1) with false. cbv iota.
+    cbn [app] in *. repeat split; try assumption. lia.
+  - cbn. rewrite T6. unfold st2. cbn. rewrite LV6, Hlv.
+    change (1 <? 0) with false. change (0 <? 1) with true. change (-1 <? 0) with true. change (0 <? -1) with false. cbv iota.
+    replace (lv + 1 - 1) with lv by lia.
+    unfold set_map_at. rewrite <- !app_assoc. cbn [app]. rewrite <- ?app_assoc. cbn [app]. rewrite update_nth_tok_app.
+    exact (HMT (b_tokens st)).
+  - cbn. rewrite E6. reflexivity.
+  - reflexivity.
+Qed.
+
+End BulletStep.
+
+(* ---- the list rule on an ordered marker: digits, '.' or ')', blanks ---- *)
+Definition ol_open_at (dl mv lv : Z) : token :=
+  map_tok 0 1 (set_markup ((fun t => if negb (mv =? 1) then set_attrs t [(s_start, AInt mv)] else t)
+                             (set_level (set_block (new_token [111; 114; 100; 101; 114; 101; 100; 95; 108; 105; 115; 116; 95; 111; 112; 101; 110] [111; 108] 1) true) lv)) [dl]).
+Definition ol_close_at (dl lv : Z) : token :=
+  set_markup (set_level (set_block (new_token [111; 114; 100; 101; 114; 101; 100; 95; 108; 105; 115; 116; 95; 99; 108; 111; 115; 101] [111; 108] (-1)) true) lv) [dl].
+
+(* the digit scan of skipOrderedListMarker *)
+Lemma ordered_digits_run dl (Hdl : dl = 46 \/ dl = 41) : forall ds (P : str) r fuel start mx,
+  Forall (fun d => is_digit d = true) ds -> (length ds < fuel)%nat ->
+  len P + len ds - start < 10 -> len P + len ds + 1 < mx ->
+  ordered_digits fuel (P ++ ds ++ dl :: 32 :: r) start (len P) mx = Ok (len P + len ds + 1).
+Proof.
+  induction ds as [|d ds IH]; intros P r fuel start mx FD Hf H10 Hmx; (destruct fuel as [|f]; [cbn [length] in Hf; lia|]); cbn [ordered_digits app].
+  - change (len (@nil Z)) with 0 in *. assert (E : (mx <=? len P) = false) by lia. rewrite E.
+    rewrite py_idx_app. cbn [bind].
+    assert (ND : is_digit dl = false) by (unfold is_digit; lia). rewrite ND.
+    assert (DL : (dl =? 41) || (dl =? 46) = true) by lia. rewrite DL.
+    assert (E2 : (len P + 1 <? mx) = true) by lia. rewrite E2.
+    rewrite py_idx_app2. cbn [bind]. change (is_space 32) with true. cbv iota. f_equal. lia.
+  - rewrite len_cons in *. pose proof (len_nonneg ds). assert (E : (mx <=? len P) = false) by lia. rewrite E.
+    rewrite py_idx_app. cbn [bind]. inversion FD as [|? ? Hd FD']; subst. rewrite Hd.
+    assert (E10 : (10 <=? len P + 1 - start) = false) by lia. rewrite E10.
+    replace (P ++ d :: ds ++ dl :: 32 :: r) with ((P ++ [d]) ++ ds ++ dl :: 32 :: r) by (rewrite <- app_assoc; reflexivity).
+    replace (len P + 1) with (len (P ++ [d])) by (rewrite len_app; reflexivity).
+    rewrite IH; [rewrite len_app; change (len [d]) with 1; f_equal; lia | exact FD' | cbn [length] in Hf; lia
+                | rewrite len_app; change (len [d]) with 1; lia | rewrite len_app; change (len [d]) with 1; lia].
+Qed.
+
+Section OrderedStep.
+Context (cfg : bcfg) (rf cf : str -> str).
+Context (pre1 pre2 : str) (d0 : Z) (ds : str) (dl : Z) (k : nat) (c1 : Z) (r1 : str) (bs li lv : Z).
+Context (Hd0 : is_digit d0 = true) (Hds : Forall (fun d => is_digit d = true) ds) (Hlen : len ds <= 8).
+Context (Hdl : dl = 46 \/ dl = 41) (Hk : (1 <= k <= 4)%nat).
+Context (Hc9 : (c1 =? 9) = false) (Hc32 : (c1 =? 32) = false).
+Notation body := (d0 :: ds).
+Notation L' := (c1 :: r1).
+Notation L := (body ++ dl :: sp k ++ c1 :: r1).
+Notation off := (len pre1 + len pre2).
+Notation mv := (int_of_digits body).
+
+Lemma o_src st : b_src st = pre1 ++ pre2 ++ L ++ [10] -> b_src st = (pre1 ++ pre2) ++ d0 :: ds ++ dl :: sp k ++ c1 :: r1 ++ [10].
+Proof. intros ->. rewrite <- !app_assoc. cbn [app]. rewrite <- ?app_assoc. reflexivity. Qed.
+
+Lemma o_len : len L = len ds + len r1 + 3 + Z.of_nat k.
+Proof. rewrite len_app, !len_cons, len_app, len_sp, len_cons. lia. Qed.
+
+Lemma o_skip_ordered st : off_line st pre1 pre2 L bs li lv -> skip_ordered st 0 = Ok (off + len body + 1).
+Proof.
+  intros H. unfold skip_ordered. rewrite (QuoteLine.ls0 _ _ _ _ _ _ st H), (QuoteLine.em0 _ _ _ _ _ _ st H). cbn [bind].
+  pose proof o_len as LL. pose proof (len_nonneg ds). pose proof (len_nonneg r1).
+  assert (E : (off + len L <=? off + 1) = false) by lia. rewrite E.
+  destruct H as (Hsrc & _). rewrite (o_src st Hsrc), <- len_app, py_idx_app. cbn [bind]. rewrite Hd0. cbn [negb]. cbv iota.
+  destruct k as [|k']; [lia|]. rewrite sp_S. cbn [app].
+  replace ((pre1 ++ pre2) ++ d0 :: ds ++ dl :: 32 :: sp k' ++ c1 :: r1 ++ [10]) with (((pre1 ++ pre2) ++ [d0]) ++ ds ++ dl :: 32 :: sp k' ++ c1 :: r1 ++ [10])
+    by (rewrite <- app_assoc; reflexivity).
+  replace (len (pre1 ++ pre2) + 1) with (len ((pre1 ++ pre2) ++ [d0])) by (rewrite len_app; reflexivity).
+  rewrite (ordered_digits_run dl Hdl); try assumption.
+  - rewrite !len_app, !len_cons. change (len (@nil Z)) with 0. f_equal. lia.
+  - unfold len in Hlen. lia.
+  - rewrite !len_app. change (len [d0]) with 1. lia.
+  - clear LL E. repeat (rewrite ?len_app, ?len_cons, ?len_sp). change (len (@nil Z)) with 0. lia.
+Qed.
+
+Context (rec : rec_t) (X : list token).
+Context (HREC : rec_adds rec pre1 (pre2 ++ body ++ dl :: sp k) L' bs (len pre2) (lv + 2) X).
+Context (X' : list token).
+Context (HMT : forall A,
+  mark_tight (S (length (A ++ ol_open_at dl mv lv :: li_open_g true body dl (lv + 1) :: X ++ [li_close_at dl (lv + 1); ol_close_at dl lv])))
+             (A ++ ol_open_at dl mv lv :: li_open_g true body dl (lv + 1) :: X ++ [li_close_at dl (lv + 1); ol_close_at dl lv])
+             (Z.of_nat (length A) + 2) (len (A ++ ol_open_at dl mv lv :: li_open_g true body dl (lv + 1) :: X ++ [li_close_at dl (lv + 1); ol_close_at dl lv]) - 2) (lv + 2)
+  = A ++ ol_open_at dl mv lv :: li_open_g true body dl (lv + 1) :: X' ++ [li_close_at dl (lv + 1); ol_close_at dl lv]).
+
+Lemma r_list_off_ordered term st : off_line st pre1 pre2 L bs li lv -> b_line st = 0 ->
+  exists st', r_list cfg rec term st 0 1 false = Ok (true, st')
+    /\ off_line st' pre1 pre2 L bs li lv
+    /\ b_tokens st' = b_tokens st ++ ol_open_at dl mv lv :: li_open_g true body dl (lv + 1) :: X' ++ [li_close_at dl (lv + 1); ol_close_at dl lv]
+    /\ b_env st' = b_env st /\ b_line st' = 1.
+Proof.
+  intros H L0. pose proof H as H'. destruct H' as (Hsrc & HbM & HeM & HtS & HsC & HbS & HbI & HlM & HlI & Hlv).
+  unfold r_list.
+  rewrite (QuoteLine.cb0 cfg _ _ _ _ _ _ st H), (QuoteLine.sc0 _ _ _ _ _ _ st H). cbn [bind]. cbv iota.
+  rewrite HbI, Z.ltb_irrefl, Bool.andb_false_r. cbv iota.
+  rewrite (o_skip_ordered st H), (QuoteLine.ls0 _ _ _ _ _ _ st H). cbn [bind].
+  pose proof (len_nonneg pre1). pose proof (len_nonneg pre2). pose proof (len_nonneg body).
+  assert (E0 : (0 <=? off + len body + 1) = true) by lia. rewrite E0. cbv iota. cbn [andb]. cbv iota. cbn [bind].
+  rewrite (QuoteLine.em0 _ _ _ _ _ _ st H). cbn [bind andb]. cbv iota.
+  rewrite (i_body pre1 pre2 body dl k c1 r1 Hk st Hsrc).
+  replace (off + len body + 1 - 1) with (off + len body) by lia.
+  assert (PM : py_idx (b_src st) (off + len body) = Ok dl).
+  { rewrite (i_src pre1 pre2 body dl k c1 r1 st Hsrc). rewrite <- !len_app. apply py_idx_app. }
+  rewrite PM. cbn [bind]. cbv iota.
+  change (Z.to_nat (1 - 0)) with 1%nat.
+  match goal with |- context [list_items cfg 2 rec term ?s2 true dl 0 0 1 (off + len body + 1) off true false] => set (st2 := s2) end.
   assert (TL : off_tabs st2 pre1 pre2 L bs li) by (unfold off_tabs, st2, st_parent, bpush; cbn; repeat split; assumption).
   assert (LV : b_level st2 = lv + 1) by (unfold st2, st_parent, bpush; cbn; rewrite Hlv; change (1 <? 0) with false; change (0 <? 1) with true; reflexivity).
   assert (L2 : b_line st2 = 0) by exact L0.
-  destruct (list_items_off 1 term st2 off TL LV L2) as (st6 & LI & TL6 & LV6 & T6 & E6 & L6).
+  destruct (list_items_off cfg pre1 pre2 true body dl k c1 r1 bs li lv Hk Hc9 Hc32 rec X HREC 1 term st2 off (fun _ => eq_refl) TL LV L2)
+    as (st6 & LI & TL6 & LV6 & T6 & E6 & L6).
   rewrite LI. cbn [bind]. cbv iota.
   destruct TL6 as (Hsrc6 & HbM6 & HeM6 & HtS6 & HsC6 & HbS6 & HbI6 & HlM6 & HlI6).
   eexists. split; [reflexivity|].
@@ -387,7 +547,33 @@ Proof.
   - reflexivity.
 Qed.
 
-End ItemStep.
+(* nothing before the list rule claims a line that starts with a digit *)
+Lemma ob_before_fail rec0 term n st : n = nm_table \/ n = nm_code \/ n = nm_fence \/ n = nm_blockquote \/ n = nm_hr ->
+  off_line st pre1 pre2 L bs li lv -> apply_rule cfg rf cf rec0 term n st 0 1 false = Ok (false, st).
+Proof.
+  assert (D0 : 48 <= d0 <= 57) by (unfold is_digit in Hd0; lia).
+  intros [->|[->|[->|[->| ->]]]] H; unfold apply_rule.
+  - change (str_eqb nm_table nm_table) with true. cbv iota. unfold r_table. change (1 <? 0 + 2) with true. reflexivity.
+  - change (str_eqb nm_code nm_table) with false. change (str_eqb nm_code nm_code) with true. cbv iota.
+    unfold r_code. rewrite (QuoteLine.cb0 cfg _ _ _ _ _ _ st H). reflexivity.
+  - change (str_eqb nm_fence nm_table) with false. change (str_eqb nm_fence nm_code) with false. change (str_eqb nm_fence nm_fence) with true.
+    cbv iota. unfold r_fence. rewrite (QuoteLine.ls0 _ _ _ _ _ _ st H), (QuoteLine.em0 _ _ _ _ _ _ st H), (QuoteLine.cb0 cfg _ _ _ _ _ _ st H). cbn [bind]. cbv iota.
+    match goal with |- (if ?x then _ else _) = _ => destruct x end; [reflexivity|].
+    destruct H as (Hsrc & _). rewrite (o_src st Hsrc), <- len_app, py_idx_app. cbn [bind].
+    assert (E : negb ((d0 =? 126) || (d0 =? 96)) = true) by lia. rewrite E. reflexivity.
+  - change (str_eqb nm_blockquote nm_table) with false. change (str_eqb nm_blockquote nm_code) with false.
+    change (str_eqb nm_blockquote nm_fence) with false. change (str_eqb nm_blockquote nm_blockquote) with true.
+    cbv iota. unfold r_blockquote. rewrite (QuoteLine.ls0 _ _ _ _ _ _ st H), (QuoteLine.em0 _ _ _ _ _ _ st H), (QuoteLine.cb0 cfg _ _ _ _ _ _ st H). cbn [bind]. cbv iota.
+    rewrite match_some_62. destruct H as (Hsrc & _). rewrite (o_src st Hsrc), <- len_app, char_at_app.
+    assert (E : (d0 =? 62) = false) by lia. rewrite E. reflexivity.
+  - change (str_eqb nm_hr nm_table) with false. change (str_eqb nm_hr nm_code) with false.
+    change (str_eqb nm_hr nm_fence) with false. change (str_eqb nm_hr nm_blockquote) with false. change (str_eqb nm_hr nm_hr) with true.
+    cbv iota. unfold r_hr. rewrite (QuoteLine.ls0 _ _ _ _ _ _ st H), (QuoteLine.em0 _ _ _ _ _ _ st H), (QuoteLine.cb0 cfg _ _ _ _ _ _ st H). cbn [bind]. cbv iota.
+    destruct H as (Hsrc & _). rewrite (o_src st Hsrc), <- len_app, char_at_app.
+    assert (E : negb ((d0 =? 42) || (d0 =? 45) || (d0 =? 95)) = true) by lia. rewrite E. reflexivity.
+Qed.
+
+End OrderedStep.
 
 (* ---- nothing before the list rule claims a line that starts with a bullet marker and blanks and has a character
    that is neither that marker nor a blank ---- *)
@@ -422,7 +608,7 @@ Lemma ib_fence_fail st : off_line st pre1 pre2 L bs li lv -> r_fence cfg st 0 1 
 Proof.
   intros H. unfold r_fence. rewrite (QuoteLine.ls0 _ _ _ _ _ _ st H), (QuoteLine.em0 _ _ _ _ _ _ st H), (QuoteLine.cb0 cfg _ _ _ _ _ _ st H). cbn [bind]. cbv iota.
   match goal with |- (if ?x then _ else _) = _ => destruct x end; [reflexivity|].
-  destruct H as (Hsrc & _). rewrite (i_src pre1 pre2 m k c1 r1 st Hsrc), <- len_app, py_idx_app. cbn [bind].
+  destruct H as (Hsrc & _). rewrite (b_src_eq pre1 pre2 m k c1 r1 st Hsrc), <- len_app, py_idx_app. cbn [bind].
   assert (E : negb ((m =? 126) || (m =? 96)) = true) by lia. rewrite E. reflexivity.
 Qed.
 
@@ -430,14 +616,14 @@ Lemma ib_blockquote_fail rec term st : off_line st pre1 pre2 L bs li lv -> r_blo
 Proof.
   intros H. unfold r_blockquote. rewrite (QuoteLine.ls0 _ _ _ _ _ _ st H), (QuoteLine.em0 _ _ _ _ _ _ st H), (QuoteLine.cb0 cfg _ _ _ _ _ _ st H). cbn [bind]. cbv iota.
   rewrite match_some_62.
-  destruct H as (Hsrc & _). rewrite (i_src pre1 pre2 m k c1 r1 st Hsrc), <- len_app, char_at_app.
+  destruct H as (Hsrc & _). rewrite (b_src_eq pre1 pre2 m k c1 r1 st Hsrc), <- len_app, char_at_app.
   assert (E : (m =? 62) = false) by lia. rewrite E. reflexivity.
 Qed.
 
 Lemma ib_hr_fail st : off_line st pre1 pre2 L bs li lv -> r_hr cfg st 0 1 false = Ok (false, st).
 Proof.
   intros H. unfold r_hr. rewrite (QuoteLine.ls0 _ _ _ _ _ _ st H), (QuoteLine.em0 _ _ _ _ _ _ st H), (QuoteLine.cb0 cfg _ _ _ _ _ _ st H). cbn [bind]. cbv iota.
-  destruct H as (Hsrc & _). rewrite (i_src pre1 pre2 m k c1 r1 st Hsrc), <- len_app, char_at_app.
+  destruct H as (Hsrc & _). rewrite (b_src_eq pre1 pre2 m k c1 r1 st Hsrc), <- len_app, char_at_app.
   destruct (negb ((m =? 42) || (m =? 45) || (m =? 95))) eqn:EM; [reflexivity|].
   assert (SRC : (pre1 ++ pre2) ++ m :: sp k ++ c1 :: r1 ++ [10] = ((pre1 ++ pre2) ++ [m]) ++ (sp k ++ a) ++ c :: b ++ [10]).
   { change (c1 :: r1 ++ [10]) with ((c1 :: r1) ++ [10]). rewrite HL'. rewrite <- !app_assoc. cbn [app]. rewrite <- ?app_assoc. cbn [app]. reflexivity. }
@@ -491,18 +677,18 @@ Lemma update_nth_tok_app_r f (A l : list token) k : update_nth_tok (length A + k
 Proof. unfold update_nth_tok. induction A as [|y A IH]; cbn [length app Nat.add]; [reflexivity | f_equal; exact IH]. Qed.
 
 (* a list whose item holds the paragraph directly: the paragraph tokens get hidden *)
-Lemma mark_tight_para s m lv (A : list token) :
-  mark_tight (S (length (A ++ ul_open_at m lv :: li_open_at m (lv + 1) :: para_tokens s (lv + 2) ++ [li_close_at m (lv + 1); ul_close_at m lv])))
-             (A ++ ul_open_at m lv :: li_open_at m (lv + 1) :: para_tokens s (lv + 2) ++ [li_close_at m (lv + 1); ul_close_at m lv])
-             (Z.of_nat (length A) + 2) (len (A ++ ul_open_at m lv :: li_open_at m (lv + 1) :: para_tokens s (lv + 2) ++ [li_close_at m (lv + 1); ul_close_at m lv]) - 2) (lv + 2)
-  = A ++ ul_open_at m lv :: li_open_at m (lv + 1) :: hide_para (para_tokens s (lv + 2)) ++ [li_close_at m (lv + 1); ul_close_at m lv].
+Lemma mark_tight_para s lv (o1 o2 e1 e2 : token) (A : list token) :
+  mark_tight (S (length (A ++ o1 :: o2 :: para_tokens s (lv + 2) ++ [e1; e2])))
+             (A ++ o1 :: o2 :: para_tokens s (lv + 2) ++ [e1; e2])
+             (Z.of_nat (length A) + 2) (len (A ++ o1 :: o2 :: para_tokens s (lv + 2) ++ [e1; e2]) - 2) (lv + 2)
+  = A ++ o1 :: o2 :: hide_para (para_tokens s (lv + 2)) ++ [e1; e2].
 Proof.
   unfold para_tokens, hide_para. cbn [app].
   set (po := map_tok 0 1 (set_level (set_block (new_token [112; 97; 114; 97; 103; 114; 97; 112; 104; 95; 111; 112; 101; 110] [112] 1) true) (lv + 2))).
   set (inl := set_children (map_tok 0 1 (set_content (set_level (set_block (new_token s_inline [] 0) true) (lv + 2 + 1)) s)) (Some [])).
   set (pc := set_level (set_block (new_token [112; 97; 114; 97; 103; 114; 97; 112; 104; 95; 99; 108; 111; 115; 101] [112] (-1)) true) (lv + 2)).
-  set (rest := [ul_open_at m lv; li_open_at m (lv + 1); po; inl; pc; li_close_at m (lv + 1); ul_close_at m lv]).
-  change (ul_open_at m lv :: li_open_at m (lv + 1) :: po :: inl :: pc :: [li_close_at m (lv + 1); ul_close_at m lv]) with rest.
+  set (rest := [o1; o2; po; inl; pc; e1; e2]).
+  change (o1 :: o2 :: po :: inl :: pc :: [e1; e2]) with rest.
   assert (LN : len (A ++ rest) - 2 = Z.of_nat (length A) + 5) by (unfold len; rewrite app_length; change (length rest) with 7%nat; lia).
   rewrite LN. rewrite app_length. change (length rest) with 7%nat.
   replace (S (length A + 7)) with (S (S (length A + 6))) by lia. unfold mark_tight; fold mark_tight.
@@ -517,13 +703,18 @@ Proof.
   rewrite !update_nth_tok_app_r. reflexivity.
 Qed.
 
-(* ---- containers within containers ---- *)
-(* a block quote marker "> ", or a bullet marker m followed by k spaces *)
-Inductive ctr := CQ | CI (m : Z) (k : nat).
-Definition okc (c : ctr) : Prop := match c with CQ => True | CI m k => (m = 42 \/ m = 45 \/ m = 43) /\ (1 <= k <= 4)%nat end.
-Definition cpre (c : ctr) : str := match c with CQ => [62; 32] | CI m k => m :: sp k end.
+(* a block quote marker "> ", a bullet marker m followed by k spaces, or an ordered marker: digits d0 ds, a delimiter
+   '.' or ')', k spaces *)
+Inductive ctr := CQ | CI (m : Z) (k : nat) | CO (d0 : Z) (ds : str) (dl : Z) (k : nat).
+Definition okc (c : ctr) : Prop :=
+  match c with
+  | CQ => True
+  | CI m k => (m = 42 \/ m = 45 \/ m = 43) /\ (1 <= k <= 4)%nat
+  | CO d0 ds dl k => is_digit d0 = true /\ Forall (fun d => is_digit d = true) ds /\ len ds <= 8 /\ (dl = 46 \/ dl = 41) /\ (1 <= k <= 4)%nat
+  end.
+Definition cpre (c : ctr) : str := match c with CQ => [62; 32] | CI m k => m :: sp k | CO d0 ds dl k => (d0 :: ds) ++ dl :: sp k end.
 Fixpoint prefix (cs : list ctr) : str := match cs with [] => [] | c :: r => cpre c ++ prefix r end.
-Fixpoint weight (cs : list ctr) : Z := match cs with [] => 0 | CQ :: r => 1 + weight r | CI _ _ :: r => 2 + weight r end.
+Fixpoint weight (cs : list ctr) : Z := match cs with [] => 0 | CQ :: r => 1 + weight r | CI _ _ :: r => 2 + weight r | CO _ _ _ _ :: r => 2 + weight r end.
 
 Lemma try_rules_skip cfg rf cf rec : forall l rest st,
   (forall n, In n l -> apply_rule cfg rf cf rec (terminated cfg rf cf) n st 0 1 false = Ok (false, st)) ->
@@ -548,6 +739,8 @@ Fixpoint wrap (cs : list ctr) (lv : Z) (hid : bool) : list token :=
   | [] => if hid then hide_para (para_tokens s lv) else para_tokens s lv
   | CQ :: r => bq_open_at lv :: wrap r (lv + 1) false ++ [bq_close_at lv]
   | CI m _ :: r => ul_open_at m lv :: li_open_at m (lv + 1) :: wrap r (lv + 2) true ++ [li_close_at m (lv + 1); ul_close_at m lv]
+  | CO d0 ds dl _ :: r => ol_open_at dl (int_of_digits (d0 :: ds)) lv :: li_open_g true (d0 :: ds) dl (lv + 1) :: wrap r (lv + 2) true
+                          ++ [li_close_at dl (lv + 1); ol_close_at dl lv]
   end.
 
 Lemma wrap_hid c r lv h : wrap (c :: r) lv h = wrap (c :: r) lv false.
@@ -557,18 +750,19 @@ Proof. destruct c; reflexivity. Qed.
    hyphen nor a blank *)
 Lemma rest_head cs : Forall okc cs -> exists c1 r1, prefix cs ++ s = c1 :: r1 /\ is_space c1 = false /\ (c1 =? 9) = false /\ (c1 =? 32) = false.
 Proof.
-  intros F. destruct cs as [|[|m k] cs]; cbn [prefix cpre app]; rewrite <- ?app_assoc; cbn [app].
+  intros F. destruct cs as [|[|m k|d0 ds dl k] cs]; cbn [prefix cpre app]; rewrite <- ?app_assoc; cbn [app].
   - destruct (s_facts s Hs) as (c0 & body & E & L & _). destruct (letter_not_space c0 L) as [Hsp _].
     exists c0, body. split; [exact E|]. split; [exact Hsp|]. unfold letter in L. split; lia.
   - eexists _, _. split; [reflexivity|]. repeat split.
   - inversion F as [|? ? OK _]; subst. destruct OK as [Hm _]. eexists _, _. split; [reflexivity|]. unfold is_space. repeat split; lia.
+  - inversion F as [|? ? OK _]; subst. destruct OK as [Hd _]. unfold is_digit in Hd. eexists _, _. split; [reflexivity|]. unfold is_space. repeat split; lia.
 Qed.
 
 (* for a bullet marker mk: somewhere in the rest of the line there is a character that is neither mk nor a blank *)
 Lemma rest_hr mk : mk = 42 \/ mk = 45 \/ mk = 43 -> forall cs, Forall okc cs ->
   exists a c b, prefix cs ++ s = a ++ c :: b /\ Forall (fun x => x = mk \/ is_space x = true) a /\ c <> mk /\ is_space c = false.
 Proof.
-  intros Hmk. induction cs as [|[|m k] cs IH]; intros F; cbn [prefix cpre app]; rewrite <- ?app_assoc; cbn [app].
+  intros Hmk. induction cs as [|[|m k|d0 ds dl k] cs IH]; intros F; cbn [prefix cpre app]; rewrite <- ?app_assoc; cbn [app].
   - destruct (s_facts s Hs) as (c0 & body & E & L & _). destruct (letter_not_space c0 L) as [Hsp _].
     exists [], c0, body. split; [exact E|]. split; [constructor|]. split; [unfold letter in L; lia | exact Hsp].
   - exists [], 62, (32 :: prefix cs ++ s). split; [reflexivity|]. split; [constructor|]. split; [lia | reflexivity].
@@ -578,16 +772,20 @@ Proof.
       split; [|split; assumption]. constructor; [left; reflexivity|]. apply Forall_app. split; [|exact Fa].
       unfold sp. apply Forall_forall. intros x I. apply repeat_spec in I. subst x. right. reflexivity.
     + exists [], m, (sp k ++ prefix cs ++ s). split; [reflexivity|]. split; [constructor|]. split; [exact NE | unfold is_space; lia].
+  - inversion F as [|? ? OK _]; subst. destruct OK as [Hd _]. unfold is_digit in Hd.
+    exists [], d0, (ds ++ dl :: sp k ++ prefix cs ++ s). split; [reflexivity|]. split; [constructor|]. split; [lia | unfold is_space; lia].
 Qed.
 
 (* every token of a wrapped paragraph below level lvl is not a paragraph_open at level lvl *)
 Lemma wrap_np : forall cs lv h lvl, lvl < lv -> Forall (NP lvl) (wrap cs lv h).
 Proof.
   assert (LVL : forall t lvl, lvl <> tlevel t -> NP lvl t) by (intros t lvl H; unfold NP; assert (E : (tlevel t =? lvl) = false) by lia; rewrite E; reflexivity).
-  induction cs as [|[|m k] cs IH]; intros lv h lvl Hl; cbn [wrap].
+  induction cs as [|[|m k|d0 ds dl k] cs IH]; intros lv h lvl Hl; cbn [wrap].
   - destruct h; unfold hide_para, para_tokens; repeat constructor; apply LVL; cbn; lia.
   - constructor; [apply LVL; cbn; lia|]. apply Forall_app. split; [apply IH; lia | repeat constructor; apply LVL; cbn; lia].
   - constructor; [apply LVL; cbn; lia|]. constructor; [apply LVL; cbn; lia|]. apply Forall_app. split; [apply IH; lia | repeat constructor; apply LVL; cbn; lia].
+  - constructor; [apply LVL; unfold ol_open_at; destruct (negb (int_of_digits (d0 :: ds) =? 1)); cbn; lia|].
+    constructor; [apply LVL; cbn; lia|]. apply Forall_app. split; [apply IH; lia | repeat constructor; apply LVL; cbn; lia].
 Qed.
 
 Lemma wrap_np_head c cs lv : Forall (NP lv) (wrap (c :: cs) lv false).
@@ -598,20 +796,21 @@ Proof.
   - constructor; [apply TY; reflexivity|]. apply Forall_app. split; [apply wrap_np; lia | repeat constructor; apply TY; reflexivity].
   - constructor; [apply TY; reflexivity|]. constructor; [apply TY; reflexivity|]. apply Forall_app.
     split; [apply wrap_np; lia | repeat constructor; apply TY; reflexivity].
+  - constructor; [apply TY; unfold ol_open_at; destruct (negb (int_of_digits (d0 :: ds) =? 1)); reflexivity|]. constructor; [apply TY; reflexivity|]. apply Forall_app.
+    split; [apply wrap_np; lia | repeat constructor; apply TY; reflexivity].
 Qed.
 
 (* markTightParagraphs on a finished item *)
-Lemma mark_tight_wrap m cs lv (A : list token) :
-  mark_tight (S (length (A ++ ul_open_at m lv :: li_open_at m (lv + 1) :: wrap cs (lv + 2) false ++ [li_close_at m (lv + 1); ul_close_at m lv])))
-             (A ++ ul_open_at m lv :: li_open_at m (lv + 1) :: wrap cs (lv + 2) false ++ [li_close_at m (lv + 1); ul_close_at m lv])
-             (Z.of_nat (length A) + 2) (len (A ++ ul_open_at m lv :: li_open_at m (lv + 1) :: wrap cs (lv + 2) false ++ [li_close_at m (lv + 1); ul_close_at m lv]) - 2) (lv + 2)
-  = A ++ ul_open_at m lv :: li_open_at m (lv + 1) :: wrap cs (lv + 2) true ++ [li_close_at m (lv + 1); ul_close_at m lv].
+Lemma mark_tight_wrap (o1 o2 e1 e2 : token) cs lv (A : list token) :
+  mark_tight (S (length (A ++ o1 :: o2 :: wrap cs (lv + 2) false ++ [e1; e2])))
+             (A ++ o1 :: o2 :: wrap cs (lv + 2) false ++ [e1; e2])
+             (Z.of_nat (length A) + 2) (len (A ++ o1 :: o2 :: wrap cs (lv + 2) false ++ [e1; e2]) - 2) (lv + 2)
+  = A ++ o1 :: o2 :: wrap cs (lv + 2) true ++ [e1; e2].
 Proof.
   destruct cs as [|c cs]; [apply mark_tight_para|].
   rewrite (wrap_hid c cs (lv + 2) true).
   set (Q := wrap (c :: cs) (lv + 2) false).
-  replace (A ++ ul_open_at m lv :: li_open_at m (lv + 1) :: Q ++ [li_close_at m (lv + 1); ul_close_at m lv])
-    with ((A ++ [ul_open_at m lv; li_open_at m (lv + 1)]) ++ Q ++ [li_close_at m (lv + 1); ul_close_at m lv]) by (rewrite <- app_assoc; reflexivity).
+  replace (A ++ o1 :: o2 :: Q ++ [e1; e2]) with ((A ++ [o1; o2]) ++ Q ++ [e1; e2]) by (rewrite <- app_assoc; reflexivity).
   apply mark_tight_noop.
   - apply wrap_np_head.
   - rewrite app_length. cbn [length]. lia.
@@ -643,8 +842,8 @@ Proof.
   - destruct d as [|d]; [cbn [length] in Hd; lia|]. cbn [length] in Hd.
     inversion FO as [|? ? OKc FO']; subst. specialize (IH FO').
     destruct (rest_head cs FO') as (c1 & r1 & EL & Hsp & H9 & H32).
-    assert (WP : 0 <= weight cs) by (clear; induction cs as [|[|] cs IH]; cbn [weight]; lia).
-    destruct c as [|m k]; cbn [prefix cpre app wrap] in *; cbn [weight] in Hw; rewrite <- ?app_assoc in *; rewrite EL in *.
+    assert (WP : 0 <= weight cs) by (clear; induction cs as [|[| |] cs IH]; cbn [weight]; lia).
+    destruct c as [|m k|d0 ds dl k]; cbn [prefix cpre app wrap] in *; cbn [weight] in Hw; rewrite <- ?app_assoc in *; cbn [app] in *; rewrite EL in *.
     + (* a block quote marker *)
       assert (REC : rec_adds (tokenize cfg rf cf (S d)) (pre1 ++ pre2 ++ [62; 32]) [] (c1 :: r1) (bs + len pre2 + 1 + 1) li (lv + 1) (wrap cs (lv + 1) false)).
       { exact (IH (pre1 ++ pre2 ++ [62; 32]) [] (bs + len pre2 + 1 + 1) li (lv + 1) d (fun x (H : In x []) => match H with end) ltac:(lia) ltac:(lia)). }
@@ -668,7 +867,7 @@ Proof.
         { intros x I. apply in_app_or in I. destruct I as [I|[<-|I]]; [exact (Hp2 x I) | lia | unfold sp in I; apply repeat_spec in I; subst x; discriminate]. }
         exact (IH pre1 (pre2 ++ m :: sp k) bs (len pre2) (lv + 2) d HP ltac:(lia) ltac:(lia)). }
       assert (O1 : off_line (st_line st 0) pre1 pre2 (m :: sp k ++ c1 :: r1) bs li lv) by (unfold off_line, st_line in *; cbn; exact O0).
-      destruct (r_list_off cfg pre1 pre2 m k c1 r1 bs li lv Hm Hk H9 H32 (tokenize cfg rf cf (S d)) _ REC (wrap cs (lv + 2) true) (mark_tight_wrap m cs lv)
+      destruct (r_list_off cfg pre1 pre2 m k c1 r1 bs li lv Hm Hk H9 H32 (tokenize cfg rf cf (S d)) _ REC (wrap cs (lv + 2) true) (mark_tight_wrap _ _ _ _ cs lv)
                            (terminated cfg rf cf) (st_line st 0) O1 eq_refl) as (st2 & RL2 & O2 & T2 & E2 & L2).
       destruct (rest_hr m Hm cs FO') as (a & c & b & EA & Fa & Hc & Hcs). rewrite EL in EA.
       assert (TR : try_rules cfg rf cf (tokenize cfg rf cf (S d)) (c_rules cfg) (st_line st 0) 0 1 = Ok st2).
@@ -687,6 +886,40 @@ Proof.
           + tauto.
           + destruct (HB n I) as [->|[->|[->| ->]]]; tauto. }
       assert (HL : 0 < len (m :: sp k ++ c1 :: r1)) by (rewrite len_cons, len_app, len_sp, len_cons; pose proof (len_nonneg r1); lia).
+      rewrite (tokenize_one cfg rf cf pre1 pre2 _ bs li lv HL ltac:(lia) (S d) st st2 O0 L0 TR O2 L2).
+      eexists. split; [reflexivity|]. split; [exact O2|]. split; [exact T2|]. split; [exact E2|]. split; [exact L2 | reflexivity].
+    + (* an ordered marker *)
+      destruct OKc as (Hd0 & Hds & Hl8 & Hdl & Hk).
+      assert (REC : rec_adds (tokenize cfg rf cf (S d)) pre1 (pre2 ++ (d0 :: ds) ++ dl :: sp k) (c1 :: r1) bs (len pre2) (lv + 2) (wrap cs (lv + 2) false)).
+      { assert (HP : forall x, In x (pre2 ++ (d0 :: ds) ++ dl :: sp k) -> x <> 9).
+        { intros x I. apply in_app_or in I. destruct I as [I|I]; [exact (Hp2 x I)|].
+          apply in_app_or in I. destruct I as [[<-|I]|[<-|I]].
+          - unfold is_digit in Hd0. lia.
+          - rewrite Forall_forall in Hds. specialize (Hds x I). unfold is_digit in Hds. lia.
+          - lia.
+          - unfold sp in I. apply repeat_spec in I. subst x. discriminate. }
+        exact (IH pre1 (pre2 ++ (d0 :: ds) ++ dl :: sp k) bs (len pre2) (lv + 2) d HP ltac:(lia) ltac:(lia)). }
+      assert (O1 : off_line (st_line st 0) pre1 pre2 ((d0 :: ds) ++ dl :: sp k ++ c1 :: r1) bs li lv) by (unfold off_line, st_line in *; cbn; exact O0).
+      destruct (r_list_off_ordered cfg pre1 pre2 d0 ds dl k c1 r1 bs li lv Hd0 Hds Hl8 Hdl Hk H9 H32 (tokenize cfg rf cf (S d)) _ REC (wrap cs (lv + 2) true)
+                           (mark_tight_wrap _ _ _ _ cs lv) (terminated cfg rf cf) (st_line st 0) O1 eq_refl) as (st2 & RL2 & O2 & T2 & E2 & L2).
+      assert (TR : try_rules cfg rf cf (tokenize cfg rf cf (S d)) (c_rules cfg) (st_line st 0) 0 1 = Ok st2).
+      { rewrite HC.
+        replace (RA ++ nm_blockquote :: RB ++ nm_list :: RC ++ nm_paragraph :: RD) with ((RA ++ nm_blockquote :: RB) ++ nm_list :: RC ++ nm_paragraph :: RD)
+          by (rewrite <- app_assoc; reflexivity).
+        rewrite try_rules_skip.
+        - cbn [try_rules]. unfold apply_rule.
+          change (str_eqb nm_list nm_table) with false. change (str_eqb nm_list nm_code) with false.
+          change (str_eqb nm_list nm_fence) with false. change (str_eqb nm_list nm_blockquote) with false.
+          change (str_eqb nm_list nm_hr) with false. change (str_eqb nm_list nm_list) with true. cbv iota.
+          rewrite RL2. reflexivity.
+        - intros n I.
+          assert (DN : n = nm_table \/ n = nm_code \/ n = nm_fence \/ n = nm_blockquote \/ n = nm_hr).
+          { apply in_app_or in I. rewrite Forall_forall in HA, HB. destruct I as [I|[<-|I]].
+            + destruct (HA n I) as [->|[->| ->]]; tauto.
+            + tauto.
+            + destruct (HB n I) as [->|[->|[->| ->]]]; tauto. }
+          eapply (ob_before_fail cfg rf cf pre1 pre2 d0 ds dl k c1 r1 bs li lv); eassumption. }
+      assert (HL : 0 < len ((d0 :: ds) ++ dl :: sp k ++ c1 :: r1)) by (rewrite len_app, len_cons; pose proof (len_nonneg ds); pose proof (len_nonneg (dl :: sp k ++ c1 :: r1)); lia).
       rewrite (tokenize_one cfg rf cf pre1 pre2 _ bs li lv HL ltac:(lia) (S d) st st2 O0 L0 TR O2 L2).
       eexists. split; [reflexivity|]. split; [exact O2|]. split; [exact T2|]. split; [exact E2|]. split; [exact L2 | reflexivity].
 Qed.
@@ -730,16 +963,21 @@ Context (HCn : Forall (fun n => str_eqb n nm_paragraph = false) RC).
 
 Lemma rest_nolf : forall cs, Forall okc cs -> forall x, In x (prefix cs ++ s) -> x <> 10.
 Proof.
-  induction cs as [|[|m k] cs IH]; intros F x I; cbn [prefix cpre app] in I; rewrite <- ?app_assoc in I; cbn [app] in I.
+  induction cs as [|[|m k|d0 ds dl k] cs IH]; intros F x I; cbn [prefix cpre app] in I; rewrite <- ?app_assoc in I; cbn [app] in I.
   - destruct (s_facts s Hs) as (c0 & body & E & L & B & _). destruct (letter_not_space c0 L) as [_ Hn].
     rewrite E in I. destruct I as [<-|I]; [exact Hn | exact (B x I)].
   - inversion F; subst. destruct I as [<-|[<-|I]]; [discriminate | discriminate | apply IH; assumption].
   - inversion F as [|? ? OK F']; subst. destruct OK as [Hm _]. destruct I as [<-|I]; [lia|].
     apply in_app_or in I. destruct I as [I|I]; [unfold sp in I; apply repeat_spec in I; subst x; discriminate | apply IH; assumption].
+  - inversion F as [|? ? OK F']; subst. destruct OK as (Hd0 & Hds & _ & Hdl & _). unfold is_digit in Hd0.
+    destruct I as [<-|I]; [lia|]. apply in_app_or in I. destruct I as [I|[<-|I]].
+    + rewrite Forall_forall in Hds. specialize (Hds x I). unfold is_digit in Hds. lia.
+    + lia.
+    + apply in_app_or in I. destruct I as [I|I]; [unfold sp in I; apply repeat_spec in I; subst x; discriminate | apply IH; assumption].
 Qed.
 
 Lemma length_weight : forall cs, Z.of_nat (length cs) <= weight cs.
-Proof. induction cs as [|[|m k] cs IH]; cbn [length weight]; lia. Qed.
+Proof. induction cs as [|[|m k|d0 ds dl k] cs IH]; cbn [length weight]; lia. Qed.
 
 Theorem block_parse_nest cs env toks : Forall okc cs -> weight cs < c_maxNesting cfg ->
   exists st, block_parse cfg rf cf (prefix cs ++ s ++ [10]) env toks = Ok st
@@ -780,10 +1018,12 @@ Fixpoint wrapc (s : str) (cs : list ctr) (lv : Z) (hid : bool) (ch : list token)
   | [] => if hid then hide_para (para_ch s lv ch) else para_ch s lv ch
   | CQ :: r => bq_open_at lv :: wrapc s r (lv + 1) false ch ++ [bq_close_at lv]
   | CI m _ :: r => ul_open_at m lv :: li_open_at m (lv + 1) :: wrapc s r (lv + 2) true ch ++ [li_close_at m (lv + 1); ul_close_at m lv]
+  | CO d0 ds dl _ :: r => ol_open_at dl (int_of_digits (d0 :: ds)) lv :: li_open_g true (d0 :: ds) dl (lv + 1) :: wrapc s r (lv + 2) true ch
+                          ++ [li_close_at dl (lv + 1); ol_close_at dl lv]
   end.
 
 Lemma wrap_wrapc s : forall cs lv hid, wrap s cs lv hid = wrapc s cs lv hid [].
-Proof. induction cs as [|[|m k] cs IH]; intros lv hid; cbn [wrap wrapc]; [destruct hid; reflexivity | rewrite IH; reflexivity | rewrite IH; reflexivity]. Qed.
+Proof. induction cs as [|[|m k|d0 ds dl k] cs IH]; intros lv hid; cbn [wrap wrapc]; [destruct hid; reflexivity | rewrite IH; reflexivity | rewrite IH; reflexivity | rewrite IH; reflexivity]. Qed.
 
 Section NPipe.
 Context (cfg : pcfg) (rf cf lt : str -> str).
@@ -815,7 +1055,7 @@ Lemma inline_all_wrapc env : forall cs lv hid,
   inline_all cfg rf cf lt (wrapc s cs lv hid []) env
   = (do toks <- inline_parse (p_inline cfg) rf cf lt s env []; Ok (wrapc s cs lv hid toks)).
 Proof.
-  induction cs as [|[|m k] cs IH]; intros lv hid; cbn [wrapc].
+  induction cs as [|[|m k|d0 ds dl k] cs IH]; intros lv hid; cbn [wrapc].
   - apply inline_all_para.
   - cbn [inline_all]. change (str_eqb (ttype (bq_open_at lv)) s_inline) with false. cbv iota. cbn [bind].
     rewrite inline_all_app, IH.
@@ -824,29 +1064,45 @@ Proof.
     cbv iota. cbn [bind].
     rewrite inline_all_app, IH.
     destruct (inline_parse (p_inline cfg) rf cf lt s env []) as [toks|e|]; cbn [bind]; reflexivity.
+  - cbn [inline_all].
+    assert (T1 : str_eqb (ttype (ol_open_at dl (int_of_digits (d0 :: ds)) lv)) s_inline = false) by (unfold ol_open_at; destruct (negb (int_of_digits (d0 :: ds) =? 1)); reflexivity).
+    rewrite T1. change (str_eqb (ttype (li_open_g true (d0 :: ds) dl (lv + 1))) s_inline) with false.
+    cbv iota. cbn [bind].
+    rewrite inline_all_app, IH.
+    destruct (inline_parse (p_inline cfg) rf cf lt s env []) as [toks|e|]; cbn [bind]; reflexivity.
 Qed.
 
 Lemma text_join_wrapc toks : forall cs lv hid, text_join (wrapc s cs lv hid toks) = wrapc s cs lv hid (join_children toks).
 Proof.
   unfold text_join.
-  induction cs as [|[|m k] cs IH]; intros lv hid; cbn [wrapc].
+  induction cs as [|[|m k|d0 ds dl k] cs IH]; intros lv hid; cbn [wrapc].
   - destruct hid; reflexivity.
   - cbn [map]. rewrite map_app, IH. reflexivity.
   - cbn [map]. rewrite map_app, IH. reflexivity.
+  - cbn [map]. rewrite map_app, IH.
+    assert (T1 : str_eqb (ttype (ol_open_at dl (int_of_digits (d0 :: ds)) lv)) s_inline = false) by (unfold ol_open_at; destruct (negb (int_of_digits (d0 :: ds) =? 1)); reflexivity).
+    rewrite T1. reflexivity.
 Qed.
 
 End NPipe.
 
-Lemma mem_prefix c : c <> 62 -> c <> 32 -> c <> 42 -> c <> 45 -> c <> 43 -> forall cs, Forall okc cs -> mem_z c (prefix cs) = false.
+Lemma mem_prefix c : c <> 62 -> c <> 32 -> c <> 42 -> c <> 45 -> c <> 43 -> c <> 46 -> c <> 41 -> (c < 48 \/ 57 < c) ->
+  forall cs, Forall okc cs -> mem_z c (prefix cs) = false.
 Proof.
-  intros A B C D E. induction cs as [|[|m k] cs IH]; intros F; cbn [prefix cpre]; [reflexivity| |]; inversion F as [|? ? OK F']; subst.
-  - unfold mem_z in *. cbn [app existsb]. rewrite (IH F'). assert (E1 : (c =? 62) = false) by lia. assert (E2 : (c =? 32) = false) by lia.
-    rewrite E1, E2. reflexivity.
+  intros A B C D E G1 G2 ND.
+  assert (E2 : forall j, existsb (Z.eqb c) (sp j) = false).
+  { unfold sp. induction j as [|j IHj]; [reflexivity|]. cbn [repeat existsb]. assert (E3 : (c =? 32) = false) by lia. rewrite E3. exact IHj. }
+  induction cs as [|[|m k|d0 ds dl k] cs IH]; intros F; cbn [prefix cpre]; [reflexivity| | |]; inversion F as [|? ? OK F']; subst.
+  - unfold mem_z in *. cbn [app existsb]. rewrite (IH F'). assert (E1 : (c =? 62) = false) by lia. assert (E3 : (c =? 32) = false) by lia.
+    rewrite E1, E3. reflexivity.
   - destruct OK as [Hm _]. unfold mem_z in *. cbn [app existsb]. rewrite existsb_app, (IH F').
-    assert (E1 : (c =? m) = false) by lia. rewrite E1.
-    assert (E2 : forall j, existsb (Z.eqb c) (sp j) = false).
-    { unfold sp. induction j as [|j IHj]; [reflexivity|]. cbn [repeat existsb]. assert (E3 : (c =? 32) = false) by lia. rewrite E3. exact IHj. }
-    rewrite E2. reflexivity.
+    assert (E1 : (c =? m) = false) by lia. rewrite E1, E2. reflexivity.
+  - destruct OK as (Hd0 & Hds & _ & Hdl & _). unfold is_digit in Hd0. unfold mem_z in *. cbn [app existsb]. rewrite !existsb_app. cbn [existsb]. rewrite ?existsb_app, (IH F'), E2.
+    assert (E1 : (c =? d0) = false) by lia. assert (E3 : (c =? dl) = false) by lia. rewrite E1, E3.
+    assert (E4 : existsb (Z.eqb c) ds = false).
+    { clear - Hds ND. induction ds as [|x ds IHd]; [reflexivity|]. inversion Hds as [|? ? Hx Hr]; subst. cbn [existsb]. unfold is_digit in Hx.
+      assert (E5 : (c =? x) = false) by lia. rewrite E5. exact (IHd Hr). }
+    rewrite E4. reflexivity.
 Qed.
 
 (* C06, containers within containers: the document  prefix(cs) s LF  - any list of "> " and "- " markers in front of
@@ -870,10 +1126,11 @@ Proof.
   change (core_rule cfg rf cf lt n_normalize (mkC (prefix cs ++ s ++ [10]) env [] false))
     with (Ok (mkC (normalize (prefix cs ++ s ++ [10])) env [] false) : res cstate).
   cbn [bind].
-  assert (M : forall c, c <> 10 -> c <> 62 -> c <> 32 -> c <> 42 -> c <> 45 -> c <> 43 -> mem_z c s = false -> mem_z c (prefix cs ++ s ++ [10]) = false).
-  { intros c A B C D D2 D3 E. unfold mem_z. rewrite !existsb_app. fold (mem_z c (prefix cs)). fold (mem_z c s). rewrite (mem_prefix c B C D D2 D3 cs FO), E.
+  assert (M : forall c, c <> 10 -> c <> 62 -> c <> 32 -> c <> 42 -> c <> 45 -> c <> 43 -> c <> 46 -> c <> 41 -> (c < 48 \/ 57 < c) ->
+              mem_z c s = false -> mem_z c (prefix cs ++ s ++ [10]) = false).
+  { intros c A B C D D2 D3 D4 D5 D6 E. unfold mem_z. rewrite !existsb_app. fold (mem_z c (prefix cs)). fold (mem_z c s). rewrite (mem_prefix c B C D D2 D3 D4 D5 D6 cs FO), E.
     cbn. assert (E1 : (c =? 10) = false) by lia. rewrite E1. reflexivity. }
-  rewrite (normalize_id (prefix cs ++ s ++ [10])) by (apply M; try discriminate; assumption).
+  rewrite (normalize_id (prefix cs ++ s ++ [10])) by (apply M; try discriminate; try assumption; unfold CR, NUL; lia).
   change (core_rule cfg rf cf lt n_block (mkC (prefix cs ++ s ++ [10]) env [] false))
     with (do b <- block_parse (p_block cfg) rf cf (prefix cs ++ s ++ [10]) env []; Ok (mkC (prefix cs ++ s ++ [10]) (b_env b) (b_tokens b) false)).
   destruct (block_parse_nest (p_block cfg) rf cf s Hs RA RB RC RD HC HA HB HCn cs env [] FO Hw) as (st & BP & T & E).
@@ -890,9 +1147,14 @@ Qed.
 Example nested_example :
   [nm_table; nm_code; nm_fence; nm_blockquote; nm_hr; nm_list; nm_reference; nm_html_block; nm_heading; nm_lheading; nm_paragraph]
   = [nm_table; nm_code; nm_fence] ++ nm_blockquote :: [nm_hr] ++ nm_list :: [nm_reference; nm_html_block; nm_heading; nm_lheading] ++ nm_paragraph :: []
-  /\ prefix [CQ; CI 45 1; CI 42 3; CQ] ++ [102; 111; 111] ++ [10] = [62; 32; 45; 32; 42; 32; 32; 32; 62; 32; 102; 111; 111; 10]
-  /\ weight [CQ; CI 45 1; CI 42 3; CQ] = 6 /\ Forall okc [CQ; CI 45 1; CI 42 3; CQ].
-Proof. repeat split; repeat constructor; lia. Qed.
+  /\ prefix [CQ; CI 45 1; CO 49 [50] 46 2; CQ] ++ [102; 111; 111] ++ [10] = [62; 32; 45; 32; 49; 50; 46; 32; 32; 62; 32; 102; 111; 111; 10]
+  /\ weight [CQ; CI 45 1; CO 49 [50] 46 2; CQ] = 6 /\ Forall okc [CQ; CI 45 1; CO 49 [50] 46 2; CQ].
+Proof.
+  split; [reflexivity|]. split; [reflexivity|]. split; [reflexivity|].
+  constructor; [exact I|]. constructor; [cbn; split; [tauto | lia]|].
+  constructor; [unfold okc; split; [reflexivity|]; split; [repeat constructor|]; split; [unfold len; cbn; lia|]; split; [left; reflexivity | lia]|].
+  constructor; [exact I | constructor].
+Qed.
 
 (* ---- C09 in every nesting of block quotes and list items: escaped text is one literal text token ---- *)
 From MD Require Import Lemmas.InlineEsc.
@@ -925,4 +1187,34 @@ Proof.
     + destruct Hwf as (Hne & _). unfold text_of in CT. cbn in CT. destruct r; [contradiction Hne; reflexivity | discriminate CT].
     + unfold text_of in CT. cbn in CT. discriminate CT.
   - exists p. split; [reflexivity|]. split; [exact Hp | rewrite Cp; exact CT].
+Qed.
+
+(* C08: an ordered marker is recorded as written *)
+Theorem ordered_marker_recorded :
+  forall cfg rf cf lt s, line_ok s -> mem_z 13 s = false -> mem_z 0 s = false ->
+  forall RA RB RC RD, c_rules (p_block cfg) = RA ++ nm_blockquote :: RB ++ nm_list :: RC ++ nm_paragraph :: RD ->
+    Forall (fun n => n = nm_table \/ n = nm_code \/ n = nm_fence) RA ->
+    Forall (fun n => n = nm_table \/ n = nm_code \/ n = nm_fence \/ n = nm_hr) RB ->
+    Forall (fun n => str_eqb n nm_paragraph = false) RC ->
+    p_core cfg = [n_normalize; n_block; n_inline; n_text_join] ->
+  forall d0 ds dl k, okc (CO d0 ds dl k) -> 2 < c_maxNesting (p_block cfg) ->
+  forall env,
+    parse cfg rf cf lt (((d0 :: ds) ++ dl :: repeat 32 k) ++ s ++ [10]) env
+    = (do toks <- inline_parse (p_inline cfg) rf cf lt s env [];
+       Ok (ol_open_at dl (int_of_digits (d0 :: ds)) 0 :: li_open_g true (d0 :: ds) dl 1 :: wrapc s [] 2 true (join_children toks)
+           ++ [li_close_at dl 1; ol_close_at dl 0], env))
+    /\ tinfo (li_open_g true (d0 :: ds) dl 1) = d0 :: ds /\ tmarkup (li_open_g true (d0 :: ds) dl 1) = [dl]
+    /\ tmarkup (ol_open_at dl (int_of_digits (d0 :: ds)) 0) = [dl]
+    /\ (int_of_digits (d0 :: ds) <> 1 -> tattrs (ol_open_at dl (int_of_digits (d0 :: ds)) 0) = [(s_start, AInt (int_of_digits (d0 :: ds)))])
+    /\ (int_of_digits (d0 :: ds) = 1 -> tattrs (ol_open_at dl (int_of_digits (d0 :: ds)) 0) = []).
+Proof.
+  intros cfg rf cf lt s Hs H13 H0 RA RB RC RD HC HA HB HCn Hcore d0 ds dl k OK Hw env.
+  split.
+  - pose proof (parse_nested cfg rf cf lt s Hs H13 H0 RA RB RC RD HC HA HB HCn Hcore [CO d0 ds dl k] (Forall_cons _ OK (Forall_nil _)) ltac:(cbn [weight]; lia) env) as P.
+    cbn [prefix cpre wrapc] in P. rewrite app_nil_r in P. exact P.
+  - split; [reflexivity|]. split; [reflexivity|].
+    split; [unfold ol_open_at; destruct (negb (int_of_digits (d0 :: ds) =? 1)); reflexivity|].
+    split; intros H; unfold ol_open_at.
+    + destruct (int_of_digits (d0 :: ds) =? 1) eqn:E; [apply Z.eqb_eq in E; contradiction | reflexivity].
+    + rewrite H. reflexivity.
 Qed.
